@@ -14,7 +14,9 @@ REAL compiler:
                relational spelling, label renaming, line renumbering, trailing
                colon): sections identical, or identical traces when only names
                of labels changed;
-  data       : the DATA payload is read verbatim (D44 lives here)."""
+  data       : the DATA payload is read verbatim (D44 lives here);
+  tab        : a TAB inside a string literal / DATA item / comment, blanks added
+               and removed in front of it (the tab-expansion finding lives here)."""
 import itertools
 import json
 import os
@@ -632,6 +634,53 @@ def main(tier, seed):
     ctx.rule.append(f'data: DATA + every payload of length <= {maxlen} over {alpha} + 15 fixed ones: the model '
                     f'lexer returns the payload verbatim, and the data section built by the real compiler must equal '
                     f'the real parse_data on that verbatim payload')
+
+    # ---- suite tab (a TAB character inside a string literal or a DATA item)
+    tbases = ['PRINT "a\tb"\n', 'x$ = "\t"\nPRINT x$; "|"\n',
+              'DATA a\tb, "c\td"\nREAD p$, q$\nPRINT p$; q$\n',
+              'IF 1 THEN PRINT "\tq" \' c\n', 'PRINT 1 \' only a comment\there\n']
+    ntab = 3 if quick else 12
+    if want('tab'):
+        lay = vlib.run_model(exe, [[2, t] for t in tbases])
+        cn = vlib.run_model(exe, [[1, t] for t in tbases])
+        if not model_failed(ctx, 'tab', lay + cn):
+            tcases = []
+            for ti, (t, lr, c) in enumerate(zip(tbases, lay, cn)):
+                where = set()
+                for ws, tok, text in lr[1]:
+                    if 9 in text and tok[0] == 4:
+                        where.add('string')
+                    if 9 in text and tok[0] == 7:
+                        where.add('data')
+                w = 'both' if len(where) == 2 else (where.pop() if where else 'none')
+                tcases.append({'a': t, 'b': l2s(c[1]), 'kinds': ['canon'], 'where': w})
+                for j in range(ntab):
+                    rng = random.Random(f'{seed}-tab-{ti}-{j}')
+                    text, kinds = compose(lr, rng, [rw_blank_add, rw_blank_remove], rng.randint(1, 3))
+                    tcases.append({'a': t, 'b': text, 'kinds': kinds, 'where': w})
+            res = vlib.run_impl('lexfn.compare', [{'a': c['a'], 'b': c['b'], 'levels': LEVELS, 'want_trace': True}
+                                                  for c in tcases], timeout=TIMEOUT)
+            if not worker_failed(ctx, 'tab', res):
+                for c, r in zip(tcases, res):
+                    for k in c['kinds']:
+                        ctx.bump('tab:' + k)
+                    bad = [lv for lv in r if lv['va'] != lv['vb'] or lv['diff'] or lv['trace_same'] is False]
+                    if not bad:
+                        continue
+                    lv = bad[0]
+                    if lv['va'] == lv['vb'] and c['where'] != 'none':
+                        ctx.report(f'C14/tab-in-literal-expanded({c["where"]})',
+                                   {'suite': 'tab', 'a': c['a'], 'b': c['b'], 'kinds': c['kinds'],
+                                    'level': lv['level'], 'sections': lv['diff'], 'ta': lv.get('ta'),
+                                    'tb': lv.get('tb'),
+                                    'note': 'the two texts differ only in blanks between tokens'}, True)
+                    else:
+                        judge_pair(ctx, 'tab', 'tab', c['kinds'], c['a'], c['b'], r)
+                ctx.count('tab', len(tcases) * len(LEVELS), [c['b'] for c in tcases])
+                ctx.sample({'suite': 'tab', 'a': tcases[1]['a'], 'b': tcases[1]['b']})
+    ctx.rule.append(f'tab: {len(tbases)} programs with a TAB character inside a string literal, a DATA item or a '
+                    f'comment x (canon + {ntab} seeded blank insertions/removals between tokens): sections and '
+                    f'traces must not change')
     return ctx.finish()
 
 
